@@ -14,7 +14,10 @@ OUT = "/verif/seeded"
 OUT_OF_SCOPE = {"C20-r3-m3": "needs Codec(cumulative_payloads[d]=False): the property quantifies over format descriptors and imposed shapes "
                              "and fixes the layout as 'cumulative occupancies as segment ends'; the flag that asks for another layout is outside it"}
 ROUNDS = [("/var/tmp/mutants", "/var/tmp/seedres", ""), ("/var/tmp/mutants2", "/var/tmp/seedres2", "r2"),
-          ("/var/tmp/mutants3", "/var/tmp/seedres3", "r3")]
+          ("/var/tmp/mutants3", "/var/tmp/seedres3", "r3"), ("/var/tmp/mutants4", "/var/tmp/seedres4", "r4")]
+# changes that break another property's clause than the one they were written for: judged by that property's check
+OTHER_CHECK = {"C08-r4-m3": ("C10", "skips the deep copy of a depth-0 split: the result shares payload boxes with the operand, which C08's statement "
+                                    "(a property of the result at return time) does not exclude; it is C10's no-aliasing clause")}
 
 
 def main():
@@ -31,7 +34,9 @@ def main():
                 continue
             src = f"{stage}/{prop}/{m}"
             ok = r.get("demo_clean") == 0 and r.get("applies") and r.get("baseline_ok") and r.get("demo_mutant") not in (0, None)
-            chk = r.get("checks", {}).get(prop, {})
+            label0 = (tag + "-" if tag else "") + m
+            judge = OTHER_CHECK.get(f"{prop}-{label0}", (prop, ""))[0]
+            chk = r.get("checks", {}).get(judge, {})
             keys = []
             for ln in chk.get("lines", []):
                 if ln.startswith("VIOLATION") and "[" in ln:
@@ -40,7 +45,9 @@ def main():
                 meta = json.load(open(f"{src}/meta.json"))
             except Exception:
                 meta = {}
-            status = "caught" if chk.get("exit") == 1 else ("MISSED" if chk.get("exit") == 0 else f"exit {chk.get('exit')}")
+            if judge != prop:
+                meta["judged_by_other_property"] = {"property": judge, "why": OTHER_CHECK[f"{prop}-{label0}"][1]}
+            status = ("caught" if judge == prop else f"caught by {judge}") if chk.get("exit") == 1 else ("MISSED" if chk.get("exit") == 0 else f"exit {chk.get('exit')}")
             label = (tag + "-" if tag else "") + m
             if f"{prop}-{label}" in OUT_OF_SCOPE:
                 rows.append((prop, label, "not kept: " + OUT_OF_SCOPE[f"{prop}-{label}"], "n/a", "", (meta.get("summary") or "")[:110], (meta.get("needs") or "")[:110]))
@@ -54,12 +61,13 @@ def main():
                 meta.update({
                     "property": prop,
                     "origin": "independent sub-agent given only the property text and a scratch worktree"
-                              + ({"r2": " (second round, on the repaired tree)", "r3": " (third round: history- and entry-point-dependent breaks)"}.get(tag, "")),
+                              + ({"r2": " (second round, on the repaired tree)", "r3": " (third round: history- and entry-point-dependent breaks)",
+                                 "r4": " (fourth round: shared helpers, second uses, boundary values, legal type variety, ordering)"}.get(tag, "")),
                     "confirmed": {"against_repo_head": head, "demo_on_clean_tree_exit": r.get("demo_clean"), "patch_applies": True,
                                   "baseline_453_unchanged": True, "demo_with_patch_exit": r.get("demo_mutant"),
                                   "how": "tools/try_mutant.py (scratch worktree of /repo HEAD; git apply; tools/baseline.sh; demo.py; "
                                          "./check with FVMON_REPO pointing at the scratch tree)"},
-                    "check_result": {"tier": r.get("tier"), "exit": chk.get("exit"), "violation_keys": keys,
+                    "check_result": {"judged_by": judge, "tier": r.get("tier"), "exit": chk.get("exit"), "violation_keys": keys,
                                      "summary": chk.get("summary", "")}})
                 json.dump(meta, open(f"{dst}/meta.json", "w"), indent=1)
             why = "confirmed" if ok else ("NOT CONFIRMED (patch does not apply to HEAD)" if not r.get("applies") else "NOT CONFIRMED")
@@ -67,12 +75,12 @@ def main():
     with open(f"{OUT}/INDEX.md", "w") as fh:
         fh.write("# Seeded property-breaking changes\n\nEach directory holds patch.diff, demo.py (passes on the clean tree, fails with the "
                  "patch) and meta.json.\nAll keep the repository's 453-test baseline passing.  `check` is the result of the property's "
-                 "quick check on the patched tree\n(r2 = second round, written after the first-round repairs; r3 = third round).\n\n")
+                 "quick check on the patched tree\n(r2 = second round, written after the first-round repairs; r3 = third round; r4 = fourth round).\n\n")
         fh.write("| property | mutant | verification | check | first violation keys | change | needs |\n|---|---|---|---|---|---|---|\n")
         for r in rows:
             fh.write("| " + " | ".join(str(x).replace("|", "/").replace("\n", " ") for x in r) + " |\n")
     print(f"{len(rows)} mutants indexed; {sum(1 for r in rows if r[2] == 'confirmed')} confirmed; "
-          f"not caught: {[r[0] + '-' + r[1] for r in rows if r[3] not in ('caught', 'n/a')]}")
+          f"not caught: {[r[0] + '-' + r[1] for r in rows if not str(r[3]).startswith('caught') and r[3] != 'n/a']}")
 
 
 if __name__ == "__main__":
